@@ -61,11 +61,12 @@ Qed.
 
 Lemma step_mem : forall admin st o t, mem t (step admin st o) = mark admin t (mem t st) o.
 Proof.
-  intros admin st o t. destruct o as [c t' | c t' | t' | t' |]; simpl; try reflexivity.
+  intros admin st o t. destruct o as [c t' | c t' | t' | t' | | c t' | c t' | t']; simpl; try reflexivity.
   - rewrite is_admin_get. destruct (String.eqb c admin); simpl; [| reflexivity].
     rewrite mem_insert. destruct (String.eqb t' t); reflexivity.
   - rewrite is_admin_get. destruct (String.eqb c admin); simpl; [| reflexivity].
     rewrite mem_delete. destruct (String.eqb t' t); reflexivity.
+  - rewrite mem_delete. destruct (String.eqb t' t); reflexivity.
 Qed.
 
 Lemma run_mem : forall admin ops st t,
@@ -83,23 +84,30 @@ Proof.
   intros admin ops t. unfold get_token, spec_role, issuedb. rewrite run_mem. reflexivity.
 Qed.
 
+Lemma revokes_not_create : forall admin o t, revokes admin o t -> o <> Create admin t.
+Proof. intros admin o t [H | H] Hc; rewrite H in Hc; discriminate Hc. Qed.
+
 Lemma mark_cases : forall admin t acc o,
   (o = Create admin t /\ mark admin t acc o = true) \/
-  (o = Revoke admin t /\ mark admin t acc o = false) \/
-  (o <> Create admin t /\ o <> Revoke admin t /\ mark admin t acc o = acc).
+  (revokes admin o t /\ mark admin t acc o = false) \/
+  (o <> Create admin t /\ ~ revokes admin o t /\ mark admin t acc o = acc).
 Proof.
-  intros admin t acc o. destruct o as [c t' | c t' | t' | t' |]; simpl;
-    try (right; right; repeat split; [intros H; discriminate H | intros H; discriminate H]).
+  intros admin t acc o. unfold revokes.
+  destruct o as [c t' | c t' | t' | t' | | c t' | c t' | t']; simpl;
+    try (right; right; repeat split; [intros H; discriminate H | intros [H | H]; discriminate H]).
   - destruct (String.eqb c admin) eqn:Hc; destruct (String.eqb t' t) eqn:Ht; simpl.
     + apply String.eqb_eq in Hc, Ht. subst. left. split; reflexivity.
-    + apply String.eqb_neq in Ht. right; right. repeat split; intros H; inversion H; contradiction.
-    + apply String.eqb_neq in Hc. right; right. repeat split; intros H; inversion H; contradiction.
-    + apply String.eqb_neq in Hc. right; right. repeat split; intros H; inversion H; contradiction.
+    + apply String.eqb_neq in Ht. right; right. repeat split; [intros H; inversion H; contradiction | intros [H | H]; discriminate H].
+    + apply String.eqb_neq in Hc. right; right. repeat split; [intros H; inversion H; contradiction | intros [H | H]; discriminate H].
+    + apply String.eqb_neq in Hc. right; right. repeat split; [intros H; inversion H; contradiction | intros [H | H]; discriminate H].
   - destruct (String.eqb c admin) eqn:Hc; destruct (String.eqb t' t) eqn:Ht; simpl.
-    + apply String.eqb_eq in Hc, Ht. subst. right; left. split; reflexivity.
-    + apply String.eqb_neq in Ht. right; right. repeat split; intros H; inversion H; contradiction.
-    + apply String.eqb_neq in Hc. right; right. repeat split; intros H; inversion H; contradiction.
-    + apply String.eqb_neq in Hc. right; right. repeat split; intros H; inversion H; contradiction.
+    + apply String.eqb_eq in Hc, Ht. subst. right; left. split; [left; reflexivity | reflexivity].
+    + apply String.eqb_neq in Ht. right; right. repeat split; [intros H; discriminate H | intros [H | H]; [inversion H; contradiction | discriminate H]].
+    + apply String.eqb_neq in Hc. right; right. repeat split; [intros H; discriminate H | intros [H | H]; [inversion H; contradiction | discriminate H]].
+    + apply String.eqb_neq in Hc. right; right. repeat split; [intros H; discriminate H | intros [H | H]; [inversion H; contradiction | discriminate H]].
+  - destruct (String.eqb t' t) eqn:Ht.
+    + apply String.eqb_eq in Ht. subst. right; left. split; [right; reflexivity | reflexivity].
+    + apply String.eqb_neq in Ht. right; right. repeat split; [intros H; discriminate H | intros [H | H]; [discriminate H | inversion H; contradiction]].
 Qed.
 
 Lemma split_last : forall (A : Type) (pre post ops : list A) (x o : A),
@@ -126,18 +134,18 @@ Proof.
     intros [pre [post [H _]]]. destruct pre; discriminate H.
   - rewrite issuedb_snoc.
     destruct (mark_cases admin t (issuedb admin ops t) o) as [[Ho Hm] | [[Ho Hm] | [Hnc [Hnr Hm]]]]; rewrite Hm.
-    + split; [intros _ | reflexivity]. exists ops, []. split; [rewrite Ho; reflexivity | intros []].
+    + split; [intros _ | reflexivity]. exists ops, []. split; [rewrite Ho; reflexivity | intros o' []].
     + split; [intros H; discriminate H |]. intros [pre [post [Hs Hn]]]. exfalso. symmetry in Hs.
       apply split_last in Hs. destruct Hs as [[_ [Hx _]] | [post' [Hp _]]].
-      * rewrite Ho in Hx. discriminate Hx.
-      * apply Hn. rewrite Hp, Ho. apply in_or_app. right. left. reflexivity.
+      * apply (revokes_not_create admin o t Ho). symmetry. exact Hx.
+      * apply (Hn o); [rewrite Hp; apply in_or_app; right; left; reflexivity | exact Ho].
     + rewrite IH. unfold issued. split.
       * intros [pre [post [Hs Hn]]]. exists pre, (post ++ [o]). split.
         -- rewrite Hs, <- app_assoc. reflexivity.
-        -- intros Hin. apply in_app_or in Hin. destruct Hin as [Hin | [Hin | []]]; [exact (Hn Hin) | exact (Hnr Hin)].
+        -- intros o' Hin. apply in_app_or in Hin. destruct Hin as [Hin | [Hin | []]]; [exact (Hn o' Hin) | subst o'; exact Hnr].
       * intros [pre [post [Hs Hn]]]. symmetry in Hs. apply split_last in Hs. destruct Hs as [[_ [Hx _]] | [post' [Hp Hops]]].
         -- exfalso. apply Hnc. symmetry. exact Hx.
-        -- exists pre, post'. split; [exact Hops |]. intros Hin. apply Hn. rewrite Hp. apply in_or_app. left. exact Hin.
+        -- exists pre, post'. split; [exact Hops |]. intros o' Hin. apply Hn. rewrite Hp. apply in_or_app. left. exact Hin.
 Qed.
 
 (* ---------------- C10: the headline statements ---------------- *)
@@ -170,7 +178,7 @@ Qed.
 Lemma outcome_spec_eq : forall admin pre o,
   outcome_of admin (run admin [] pre) o = spec_outcome admin pre o.
 Proof.
-  intros admin pre o. destruct o as [c t | c t | t | t |]; simpl;
+  intros admin pre o. destruct o as [c t | c t | t | t | | c t | c t | t]; simpl;
     rewrite ?is_admin_get, ?role_spec; reflexivity.
 Qed.
 
@@ -204,25 +212,27 @@ Qed.
 
 (* creating or revoking t never changes the validity of another token *)
 Theorem others_unaffected : forall admin st o t',
-  (forall c t, o = Create c t \/ o = Revoke c t -> t' <> t) ->
+  target o <> Some t' ->
   get_token admin (step admin st o) t' = get_token admin st t'.
 Proof.
   intros admin st o t' Hne. unfold get_token. rewrite step_mem.
-  destruct (mark_cases admin t' (mem t' st) o) as [[Ho _] | [[Ho _] | [_ [_ Hm]]]].
-  - exfalso. apply (Hne admin t'); [left; exact Ho | reflexivity].
-  - exfalso. apply (Hne admin t'); [right; exact Ho | reflexivity].
+  destruct (mark_cases admin t' (mem t' st) o) as [[Ho _] | [[[Ho | Ho] _] | [_ [_ Hm]]]].
+  - exfalso. apply Hne. rewrite Ho. reflexivity.
+  - exfalso. apply Hne. rewrite Ho. reflexivity.
+  - exfalso. apply Hne. rewrite Ho. reflexivity.
   - rewrite Hm. reflexivity.
 Qed.
 
 (* operations that are not an admin create/revoke change nothing at all *)
 Theorem non_admin_ops_change_nothing : forall admin st o,
-  (forall t, o <> Create admin t /\ o <> Revoke admin t) -> step admin st o = st.
+  (forall t, o <> Create admin t /\ o <> Revoke admin t /\ o <> Race t) -> step admin st o = st.
 Proof.
-  intros admin st o H. destruct o as [c t | c t | t | t |]; simpl; try reflexivity.
+  intros admin st o H. destruct o as [c t | c t | t | t | | c t | c t | t]; simpl; try reflexivity.
   - rewrite is_admin_get. destruct (String.eqb c admin) eqn:Hc; [| reflexivity].
     apply String.eqb_eq in Hc. subst c. destruct (H t) as [H1 _]. exfalso. apply H1. reflexivity.
   - rewrite is_admin_get. destruct (String.eqb c admin) eqn:Hc; [| reflexivity].
-    apply String.eqb_eq in Hc. subst c. destruct (H t) as [_ H2]. exfalso. apply H2. reflexivity.
+    apply String.eqb_eq in Hc. subst c. destruct (H t) as [_ [H2 _]]. exfalso. apply H2. reflexivity.
+  - destruct (H t) as [_ [_ H3]]. exfalso. apply H3. reflexivity.
 Qed.
 
 Theorem admin_always_admin : forall admin st ops,
@@ -259,17 +269,19 @@ Proof. reflexivity. Qed.
 Theorem refinement_step : forall admin st o x,
   abs (step admin st o) x <-> spec_step admin (abs st) o x.
 Proof.
-  intros admin st o x. unfold abs. destruct o as [c t | c t | t | t |]; simpl; try tauto.
+  intros admin st o x. unfold abs. destruct o as [c t | c t | t | t | | c t | c t | t]; simpl; try tauto.
   - rewrite is_admin_get. destruct (String.eqb c admin); [apply In_insert | tauto].
   - rewrite is_admin_get. destruct (String.eqb c admin); [apply In_delete | tauto].
+  - apply In_delete.
 Qed.
 
 Lemma spec_step_ext : forall admin (S S' : token -> Prop) o,
   (forall x, S x <-> S' x) -> forall x, spec_step admin S o x <-> spec_step admin S' o x.
 Proof.
-  intros admin S S' o H x. destruct o as [c t | c t | t | t |]; simpl; try apply H.
+  intros admin S S' o H x. destruct o as [c t | c t | t | t | | c t | c t | t]; simpl; try apply H.
   - destruct (String.eqb c admin); [rewrite H; tauto | apply H].
   - destruct (String.eqb c admin); [rewrite H; tauto | apply H].
+  - rewrite H; tauto.
 Qed.
 
 Lemma spec_run_ext : forall admin ops (S S' : token -> Prop),
@@ -289,7 +301,7 @@ Qed.
 Lemma created_In : forall admin ops t, In t (created admin ops) <-> In (Create admin t) ops.
 Proof.
   intros admin ops t. induction ops as [| o r IH]; simpl; [tauto |].
-  destruct o as [c t' | c t' | t' | t' |]; simpl;
+  destruct o as [c t' | c t' | t' | t' | | c t' | c t' | t']; simpl;
     try (rewrite IH; split; [intros H; right; exact H | intros [H | H]; [discriminate H | exact H]]).
   destruct (String.eqb c admin) eqn:Hc.
   - apply String.eqb_eq in Hc. subst c. simpl. rewrite IH. split.
@@ -299,17 +311,33 @@ Proof.
     intros [H | H]; [inversion H; exfalso; apply Hc; assumption | exact H].
 Qed.
 
-Lemma revoked_In : forall admin ops t, In t (revoked admin ops) <-> In (Revoke admin t) ops.
+Lemma revoked_In : forall admin ops t, In t (revoked admin ops) <-> exists o, In o ops /\ revokes admin o t.
 Proof.
-  intros admin ops t. induction ops as [| o r IH]; simpl; [tauto |].
-  destruct o as [c t' | c t' | t' | t' |]; simpl;
-    try (rewrite IH; split; [intros H; right; exact H | intros [H | H]; [discriminate H | exact H]]).
-  destruct (String.eqb c admin) eqn:Hc.
-  - apply String.eqb_eq in Hc. subst c. simpl. rewrite IH. split.
-    + intros [H | H]; [left; rewrite H; reflexivity | right; exact H].
-    + intros [H | H]; [left; inversion H; reflexivity | right; exact H].
-  - apply String.eqb_neq in Hc. rewrite IH. split; [intros H; right; exact H |].
-    intros [H | H]; [inversion H; exfalso; apply Hc; assumption | exact H].
+  intros admin ops t. unfold revokes. induction ops as [| o r IH]; simpl.
+  - split; [intros [] | intros [o [[] _]]].
+  - assert (Hskip : (forall t0, o <> Revoke admin t0) -> (forall t0, o <> Race t0) ->
+                    (In t (revoked admin r) <-> exists o0, (o = o0 \/ In o0 r) /\ (o0 = Revoke admin t \/ o0 = Race t))).
+    { intros H1 H2. rewrite IH. split.
+      - intros [o0 [Hin Hr]]. exists o0. split; [right; exact Hin | exact Hr].
+      - intros [o0 [[He | Hin] Hr]]; [subst o0; destruct Hr as [Hr | Hr]; [exfalso; exact (H1 t Hr) | exfalso; exact (H2 t Hr)] |].
+        exists o0. split; assumption. }
+    destruct o as [c t' | c t' | t' | t' | | c t' | c t' | t'];
+      try (apply Hskip; intros t0 Hd; discriminate Hd).
+    + destruct (String.eqb c admin) eqn:Hc.
+      * apply String.eqb_eq in Hc. subst c. simpl. rewrite IH. split.
+        -- intros [H | [o0 [Hin Hr]]]; [exists (Revoke admin t'); split; [left; reflexivity | left; rewrite H; reflexivity] |
+                                       exists o0; split; [right; exact Hin | exact Hr]].
+        -- intros [o0 [[He | Hin] Hr]].
+           ++ subst o0. destruct Hr as [Hr | Hr]; [left; inversion Hr; reflexivity | discriminate Hr].
+           ++ right. exists o0. split; assumption.
+      * apply String.eqb_neq in Hc. apply Hskip; [| intros t0 Hd; discriminate Hd].
+        intros t0 Hd. inversion Hd. apply Hc. assumption.
+    + simpl. rewrite IH. split.
+      * intros [H | [o0 [Hin Hr]]]; [exists (Race t'); split; [left; reflexivity | right; rewrite H; reflexivity] |
+                                     exists o0; split; [right; exact Hin | exact Hr]].
+      * intros [o0 [[He | Hin] Hr]].
+        -- subst o0. destruct Hr as [Hr | Hr]; [discriminate Hr | left; inversion Hr; reflexivity].
+        -- right. exists o0. split; assumption.
 Qed.
 
 Lemma fresh_from_split : forall admin pre p c t post,
@@ -331,13 +359,14 @@ Proof.
   rewrite issuedb_iff, created_In, revoked_In. split.
   - intros [pre [post [Hops Hn]]]. split.
     + rewrite Hops. apply in_or_app. right. left. reflexivity.
-    + intros Hin. rewrite Hops in Hin. apply in_app_or in Hin. destruct Hin as [Hin | [Hin | Hin]].
+    + intros [o [Hin Hr]]. rewrite Hops in Hin. apply in_app_or in Hin. destruct Hin as [Hin | [Hin | Hin]].
       * unfold fresh in Hf. rewrite Hops in Hf. apply fresh_from_split in Hf; [| reflexivity].
-        destruct Hf as [_ Hf]. apply (Hf (Revoke admin t)); [exact Hin | simpl; right; reflexivity].
-      * discriminate Hin.
-      * exact (Hn Hin).
+        destruct Hf as [_ Hf]. apply (Hf o); [exact Hin |].
+        destruct Hr as [Hr | Hr]; rewrite Hr; simpl; [right; reflexivity | reflexivity].
+      * apply (revokes_not_create admin o t Hr). symmetry. exact Hin.
+      * exact (Hn o Hin Hr).
   - intros [Hc Hr]. apply in_split in Hc. destruct Hc as [pre [post Hops]]. exists pre, post. split; [exact Hops |].
-    intros Hin. apply Hr. rewrite Hops. apply in_or_app. right. right. exact Hin.
+    intros o Hin Hrv. apply Hr. exists o. split; [| exact Hrv]. rewrite Hops. apply in_or_app. right. right. exact Hin.
 Qed.
 
 Lemma fresh_created_aux : forall admin ops p, fresh_from admin p ops ->
@@ -348,7 +377,7 @@ Proof.
   - simpl in Hf. destruct Hf as [Hcond Hf]. apply IH in Hf. destruct Hf as [Hm Hnd].
     assert (Hm' : forall t, In t (created admin r) -> forall o', In o' p -> ~ mentions o' t).
     { intros t Hin o' Hin'. apply (Hm t Hin). apply in_or_app. left. exact Hin'. }
-    destruct o as [c t0 | c t0 | t0 | t0 |]; try (split; assumption).
+    destruct o as [c t0 | c t0 | t0 | t0 | | c t0 | c t0 | t0]; try (split; assumption).
     destruct (String.eqb c admin) eqn:Hc; [| split; assumption].
     apply String.eqb_eq in Hc. destruct (Hcond Hc) as [_ Hfr]. split.
     + intros t [Ht | Ht]; [subst t; exact Hfr | apply Hm'; exact Ht].
@@ -364,13 +393,14 @@ Proof. intros admin ops Hf. apply (fresh_created_aux admin ops [] Hf). Qed.
 (* the table never holds a value twice (PRIMARY KEY + ON CONFLICT DO NOTHING) *)
 Lemma step_nodup : forall admin st o, NoDup st -> NoDup (step admin st o).
 Proof.
-  intros admin st o Hnd. destruct o as [c t | c t | t | t |]; simpl; try exact Hnd.
+  intros admin st o Hnd. destruct o as [c t | c t | t | t | | c t | c t | t]; simpl; try exact Hnd.
   - destruct (is_admin (get_token admin st c)); [| exact Hnd]. unfold insert.
     destruct (mem t st) eqn:Hm; [exact Hnd |].
     apply NoDup_rev in Hnd. apply (NoDup_cons t) in Hnd.
     + apply NoDup_rev in Hnd. simpl in Hnd. rewrite rev_involutive in Hnd. exact Hnd.
     + intros Hin. apply in_rev in Hin. apply mem_In in Hin. rewrite Hin in Hm. discriminate Hm.
   - destruct (is_admin (get_token admin st c)); [| exact Hnd]. apply NoDup_filter. exact Hnd.
+  - apply NoDup_filter. exact Hnd.
 Qed.
 
 Theorem table_nodup : forall admin ops st, NoDup st -> NoDup (run admin st ops).
@@ -379,22 +409,102 @@ Proof.
   apply IH. apply step_nodup. exact Hnd.
 Qed.
 
+(* ---------------- storage failures and overlapping operations ---------------- *)
+
+(* an operation whose COMMIT failed changes nothing ... *)
+Theorem failed_op_changes_nothing : forall admin st o, is_failed o = true -> step admin st o = st.
+Proof. intros admin st o H. destruct o; simpl in H; try discriminate H; reflexivity. Qed.
+
+(* ... its answer is not a success ... *)
+Theorem failed_op_not_success : forall admin st o, is_failed o = true ->
+  outcome_of admin st o = OFailed \/ outcome_of admin st o = ODenied.
+Proof.
+  intros admin st o H. destruct o as [c t | c t | t | t | | c t | c t | t]; simpl in H; try discriminate H; simpl;
+    destruct (is_admin (get_token admin st c)); [left | right | left | right]; reflexivity.
+Qed.
+
+(* ... and every later answer is the one of the history with the failed operations erased *)
+Theorem failed_ops_erasable : forall admin ops st,
+  run admin st ops = run admin st (filter (fun o => negb (is_failed o)) ops).
+Proof.
+  intros admin ops. unfold run. induction ops as [| o r IH]; intros st; simpl; [reflexivity |].
+  destruct (is_failed o) eqn:Hf; simpl.
+  - rewrite (failed_op_changes_nothing admin st o Hf). apply IH.
+  - apply IH.
+Qed.
+
+Lemma mark_fold_true : forall admin t l acc,
+  fold_left (mark admin t) l acc = true -> acc = true \/ In (Create admin t) l.
+Proof.
+  intros admin t l. induction l as [| o r IH]; intros acc H; simpl in H; [left; exact H |].
+  apply IH in H. destruct H as [H | H]; [| right; right; exact H].
+  destruct (mark_cases admin t acc o) as [[Ho _] | [[_ Hm] | [_ [_ Hm]]]].
+  - right. left. exact Ho.
+  - rewrite Hm in H. discriminate H.
+  - rewrite Hm in H. left. exact H.
+Qed.
+
+(* Linearisation reading.  Every operation has a single access to the shared table (one SQL statement), its
+   linearisation point, between its invocation and its response; an execution of overlapping operations is
+   the sequence [lin] of the operations in the order of these points, and an operation invoked after the
+   response of another one comes later in it.  Hence: once a revocation of t (plain, or the one inside Race)
+   has taken effect, every authentication of t that takes effect later - in particular every one that starts
+   after the revocation answered - is refused on both transports, as long as t is not created again. *)
+Theorem after_revoke_refused : forall admin pre o mid t,
+  t <> admin -> revokes admin o t -> ~ In (Create admin t) mid ->
+  let st := run admin [] (pre ++ o :: mid) in
+  outcome_of admin st (AuthHttp t) = ORole NoTok /\ outcome_of admin st (AuthWs t) = OWs false.
+Proof.
+  intros admin pre o mid t Hne Hr Hnc st.
+  assert (Hg : get_token admin st t = NoTok).
+  { unfold st. rewrite role_spec. unfold spec_role. apply String.eqb_neq in Hne. rewrite Hne.
+    destruct (issuedb admin (pre ++ o :: mid) t) eqn:Hi; [| reflexivity]. exfalso.
+    unfold issuedb in Hi. rewrite fold_left_app in Hi. simpl in Hi.
+    apply mark_fold_true in Hi. destruct Hi as [Hi | Hi]; [| exact (Hnc Hi)].
+    destruct (mark_cases admin t (fold_left (mark admin t) pre false) o) as [[Ho _] | [[_ Hm] | [_ [Hnr _]]]].
+    - exact (revokes_not_create admin o t Hr Ho).
+    - rewrite Hm in Hi. discriminate Hi.
+    - exact (Hnr Hr). }
+  simpl. rewrite Hg. split; reflexivity.
+Qed.
+
+(* the authenticate that overlaps the revocation may be linearised on either side of it *)
+Theorem race_inflight_allowed : forall admin pre t r,
+  outcome_of admin (run admin [] pre) (Race t) = ORace r -> race_allowed admin pre t r.
+Proof.
+  intros admin pre t r H. simpl in H. inversion H as [Hr]. left. apply role_spec.
+Qed.
+
+(* the two allowed answers are: the validity before, or refused (the admin token stays admin) *)
+Theorem race_allowed_cases : forall admin pre t r, race_allowed admin pre t r ->
+  r = spec_role admin pre t \/ (t <> admin /\ r = NoTok) \/ (t = admin /\ r = Admin).
+Proof.
+  intros admin pre t r [H | H]; [left; exact H |]. right.
+  unfold spec_role in H. destruct (String.eqb t admin) eqn:He.
+  - apply String.eqb_eq in He. right. split; assumption.
+  - apply String.eqb_neq in He. left. split; [exact He |].
+    rewrite issuedb_snoc in H. simpl in H. rewrite !String.eqb_refl in H. exact H.
+Qed.
+
 (* ---------------- Examples: the hypotheses are satisfiable on a concrete non-trivial history ---------------- *)
 Open Scope string_scope.
 
 Definition ex_admin : token := "adm".
 Definition ex_ops : list op :=
   [AuthHttp "t0"; Create "adm" "t1"; AuthHttp "t1"; Create "t1" "zz"; Revoke "t1" "t1"; Create "adm" "t2";
-   Restart; Revoke "adm" "t1"; AuthWs "t1"; AuthWs "t2"; Revoke "adm" "adm"; AuthHttp "adm"; Revoke "adm" "nope"].
+   Restart; Revoke "adm" "t1"; AuthWs "t1"; AuthWs "t2"; Revoke "adm" "adm"; AuthHttp "adm"; Revoke "adm" "nope";
+   RevokeFail "adm" "t2"; AuthHttp "t2"; CreateFail "adm" "t3"; AuthHttp "t3"; CreateFail "t2" "t4";
+   Create "adm" "t5"; Race "t5"; AuthHttp "t5"; Race "adm"; Race "t2"].
 
 Example ex_trace :
   map fst (trace ex_admin [] ex_ops) =
   [ORole NoTok; OCreated; ORole User; ODenied; ODenied; OCreated; ORestarted; ORevoked; OWs false; OWs true;
-   ORevoked; ORole Admin; ORevoked]
-  /\ run ex_admin [] ex_ops = ["t2"].
+   ORevoked; ORole Admin; ORevoked; OFailed; ORole User; OFailed; ORole NoTok; ODenied;
+   OCreated; ORace User; ORole NoTok; ORace Admin; ORace User]
+  /\ run ex_admin [] ex_ops = [].
 Proof. vm_compute. split; reflexivity. Qed.
 
-Example ex_issued : issued ex_admin ex_ops "t2" /\ ~ issued ex_admin ex_ops "t1".
+Example ex_issued : issued ex_admin (firstn 13 ex_ops) "t2" /\ ~ issued ex_admin ex_ops "t1".
 Proof.
   split.
   - apply issuedb_iff. vm_compute. reflexivity.
@@ -412,7 +522,7 @@ Proof.
   repeat (split; [first [exact I | fresh_here | (intros Hd; discriminate Hd)] |]). exact I.
 Qed.
 
-Example ex_set_spec : created ex_admin ex_ops = ["t1"; "t2"] /\ revoked ex_admin ex_ops = ["t1"; "adm"; "nope"].
+Example ex_set_spec : created ex_admin ex_ops = ["t1"; "t2"; "t5"] /\ revoked ex_admin ex_ops = ["t1"; "adm"; "nope"; "t5"; "adm"; "t2"].
 Proof. vm_compute. split; reflexivity. Qed.
 
 (* without freshness the set form would be wrong (a value revoked before it is drawn), which is why
